@@ -388,6 +388,40 @@ def stream_identity_stub(ctx: Ctx) -> Stream:
 
 
 # ---------------------------------------------------------------------------------------------
+# stream: dsn (ModuleDSN.full_joined / parsed, DSN.join)
+
+
+def stream_dsn(ctx: Ctx) -> Stream:
+	from rogw.tranp.dsn.dsn import DSN
+	from rogw.tranp.dsn.module import ModuleDSN
+	rng = ctx.sub_rng('dsn')
+	parts_pool = ['a', 'b.c', 'file_input', 'class_def[3]', 'x#y', '', 'm', 'ma', 'a.b#c.d', '#', 'f.g[0].h', 'rogw.tranp', '__main__']
+	cases = []
+	for i in range(ctx.scale(300, 3000)):
+		ops, real = [], []
+		parts = [rng.choice(parts_pool) for _ in range(rng.randint(0, 4))]
+		d = rng.choice(['.', '#'])
+		for op, fn in (
+			(f"dsn.join\t{hx(d)}\t{';'.join(hx(p) for p in parts)}", lambda: hx(DSN.join(*parts, delimiter=d))),
+			(f"dsn.full\t{hx(parts[0]) if parts else '-'}\t{';'.join(hx(p) for p in parts[1:])}", lambda: hx(ModuleDSN.full_joined(parts[0] if parts else '', *parts[1:]))),
+			(f"dsn.parsed\t{hx('#'.join(parts[:3]))}", lambda: ' '.join(hx(x) for x in ModuleDSN.parsed('#'.join(parts[:3])))),
+		):
+			ops.append(op)
+			try:
+				real.append(fn())
+			except Exception as e:  # noqa: BLE001
+				real.append(exc_enum(e))
+		# the round trip serialize / deserialize rely on
+		m, pth = rng.choice(['m', 'a.b', 'rogw.tranp.x']), rng.choice(['file_input', 'file_input.class_def[1].block', ''])
+		ops.append(f'dsn.parsed\t{hx(ModuleDSN.full_joined(m, pth))}')
+		real.append(' '.join(hx(x) for x in ModuleDSN.parsed(ModuleDSN.full_joined(m, pth))))
+		cases.append(({'parts': len(parts), 'hash': sum('#' in p for p in parts)}, ops, real))
+	st = common.correspond('dsn', cases, FAMILY, classify=lambda dd: f"parts={dd['parts']},with#={min(dd['hash'], 2)}")
+	st.note = 'real DSN.join / ModuleDSN.full_joined / ModuleDSN.parsed on part lists with empty parts, parts that contain `#` or `.`, both delimiters vs the model (dsnJoin, fullJoined, dsnParsed)'
+	return st
+
+
+# ---------------------------------------------------------------------------------------------
 # stream: rebuild-stub
 
 
@@ -753,7 +787,10 @@ def search_stub_laws(ctx: Ctx) -> SearchResult:
 			for k, e in entries.items():
 				db[k] = e
 			ser = ReflectionSerializer(StubEntrypoints(), traits)  # type: ignore[arg-type]
-			back = obs_forest(ser._deserialize_attrs(db, py_flatten(f)))
+			given = py_flatten(f)
+			back = obs_forest(ser._deserialize_attrs(db, given))
+			if list(given.items()) != list(py_flatten(f).items()):
+				found('stub:rebuild-mutates-input', f'_deserialize_attrs changed the dict it was given: {flat_text(given)[:200]}', rep)
 			if back != f:
 				found('stub:rebuild', f'_deserialize_attrs(flatten f) shows {forest_sexp(back)[:200]} for f = {forest_sexp(f)[:200]}', rep)
 		except Exception as e:  # noqa: BLE001
@@ -1442,6 +1479,54 @@ def invariants_of(db: Any, data: dict[str, dict[str, Any]], mod: str) -> dict[st
 	return {'SymOK': sym_ok, 'Loaded': closed and cls_keys and via_ok and acyclic}
 
 
+def real_table_ops(db: Any) -> list[str]:
+	"""the loaded table for the driver: what the entrypoints know about every node, then every entry"""
+	import rogw.tranp.syntax.node.definition as defs
+	ops = ['t.reset']
+	seen: set[str] = set()
+	entries = []
+	for k, s in db.items():
+		for n in (s.types, s.node, s.decl):
+			d = dsn_of(n)
+			if d not in seen:
+				seen.add(d)
+				is_decl = len([c for c in defs.DeclAllTs if isinstance(n, c)]) == 1
+				ops.append(f't.node\t{hx(d)}\t1{int(n.is_a(defs.ClassDef))}{int(is_decl)}\t{hx(n.fullyname)}')
+		entries.append(f't.set\t{hx(k)}\t' + sym_text(s).replace(' ', '\t', 4))
+	return ops + entries
+
+
+def class_ranks(db: Any, mod: str) -> str:
+	"""longest chain of class entries of `mod` that refer to each other — the acyclicity witness for Loaded; '-' if there is a cycle"""
+	import rogw.tranp.syntax.node.definition as defs
+	table = {k: s for k, s in db.items()}
+	rank: dict[str, int] = {}
+	visiting: set[str] = set()
+
+	def rank_of(k: str) -> int:
+		if k in rank:
+			return rank[k]
+		if k in visiting:
+			raise RecursionError(k)
+		visiting.add(k)
+		s = table[k]
+		r = 0
+		if s.node.is_a(defs.ClassDef) and s.types == s.decl:
+			for c in forest_keys(obs_forest(s.attrs)):
+				if c.split('#')[0] == mod and c in table:
+					r = max(r, rank_of(c) + 1)
+		visiting.discard(k)
+		rank[k] = r
+		return r
+	try:
+		for k in table:
+			if k.split('#')[0] == mod:
+				rank_of(k)
+	except RecursionError:
+		return '-'
+	return ','.join(f'{hx(k)}={r}' for k, r in rank.items() if r) or '-'
+
+
 def check_module(ld: Loaded, mod: str) -> list[Finding]:
 	"""the law of the property on one module of a loaded table (real code only); an exception of the real code is a finding"""
 	replay = {'program': ld.name, 'sources': ld.sources, 'entry': ld.entry, 'module': mod}
@@ -1460,6 +1545,12 @@ def _check_module(ld: Loaded, mod: str, replay: dict[str, Any], out: list[Findin
 	db = ld.app.resolve(SymbolDB)
 	ser = ld.app.resolve(IReflectionSerializer)
 	before = {k: describe(s) for k, s in db.items(mod)}
+	from rogw.tranp.dsn.module import ModuleDSN
+	for k, s in db.items(mod):
+		for n in (s.types, s.node, s.decl):
+			if ModuleDSN.parsed(dsn_of(n)) != (n.module_path, n.full_path) or not n.module_path or '#' in n.module_path or '#' in n.full_path:
+				out.append(Finding(key='dsn:not-round-trip', what=f'{k}: node ({n.module_path!r}, {n.full_path!r}) is written as {dsn_of(n)!r} and read back as {ModuleDSN.parsed(dsn_of(n))} (guard of C14.dsn_rt)', replay=replay))
+				break
 	stage[0] = 'export'
 	data = db.to_json(ser, mod)
 
@@ -1480,12 +1571,16 @@ def _check_module(ld: Loaded, mod: str, replay: dict[str, Any], out: list[Findin
 		if k.split('#')[0] != mod:
 			new[k] = s
 	stage[0] = 'import'
+	data_before = json.dumps(data, sort_keys=False)
 	try:
 		new.import_json(ser, data)
 	except Exception as e:  # noqa: BLE001
 		if not bad_order:
 			found(f'import:raises:{exc_enum(e)}', f'import of the export of {mod} raises {exc_enum(e)}: {exc_text(e, 200)}', {})
 		return
+	if json.dumps(data, sort_keys=False) != data_before:
+		found('import:mutates-input', f'import_json changed the rows it was given (export of {mod}): the caller cannot import them again', {})
+		data = json.loads(data_before)
 	if bad_order:
 		found('order:oracle-disagrees', 'import succeeded although a row refers to a later key', {'violations': bad_order[:3]})
 	stage[0] = 'describe-restored'
@@ -1526,6 +1621,8 @@ def real_pass(ctx: Ctx) -> tuple[list[Stream], SearchResult]:
 	stats: Counter[str] = Counter()
 	inv_hist: Counter[str] = Counter()
 	inv_broken: list[str] = []
+	inv_cases: list[tuple[Any, list[str], list[str]]] = []
+	n_tables = 0
 	for ld, stats in load_programs(ctx, 'real', ctx.scale(36, 500), REAL_MODULES[:ctx.scale(2, len(REAL_MODULES))]):
 		if ld.app is None:
 			res.cases += 1
@@ -1539,6 +1636,8 @@ def real_pass(ctx: Ctx) -> tuple[list[Stream], SearchResult]:
 		ser = ld.app.resolve(IReflectionSerializer)
 		mods = module_keys(db)
 		own = [m for m in mods if m in (ld.sources or {})] if ld.kind != 'real' else [m for m in mods if m not in done]
+		inv_ops: list[str] = []
+		inv_real: list[str] = []
 		for m in own:
 			done.add(m)
 			forests = [obs_forest(s.attrs) for _, s in db.items(m)]
@@ -1553,6 +1652,8 @@ def real_pass(ctx: Ctx) -> tuple[list[Stream], SearchResult]:
 			fnd = check_module(ld, m)
 			try:
 				inv = invariants_of(db, db.to_json(ser, m), m)
+				inv_ops.append(f't.inv\t{hx(m)}\t{class_ranks(db, m)}')
+				inv_real.append(f"Loaded={'true' if inv['Loaded'] else 'false'} SymOK={'true' if inv['SymOK'] else 'false'}")
 				order_ok = not any(f.key.startswith('order:') for f in fnd)
 				inv_hist[f"SymOK={int(inv['SymOK'])},Loaded={int(inv['Loaded'])},order-law={'holds' if order_ok else 'fails'}"] += 1
 				if inv['Loaded'] and not order_ok:
@@ -1568,6 +1669,14 @@ def real_pass(ctx: Ctx) -> tuple[list[Stream], SearchResult]:
 			seen.add(f'{ld.name}:{m}:{len(mods[m])}')
 			if len(res.samples) < 2:
 				res.samples.append({'program': ld.name, 'module': m, 'symbols': len(mods[m]), 'max_attr_depth': depth, 'max_attr_width': width})
+		# correspondence: the invariants, evaluated by their Lean definitions on the whole loaded table
+		# (about a second per module on a 400-entry table: quick = every third fixed / corpus program and every 12th generated one;
+		# thorough = all fixed ones, every 12th generated one and two modules of the first real set)
+		if inv_ops and ((ld.kind in ('fixed', 'corpus') and (ctx.thorough or n_tables % 3 == 0)) or (ctx.thorough and ld.name == REAL_MODULES[0]) or (ld.kind != 'real' and n_tables % 12 == 0)):
+			tbl_ops = real_table_ops(db)
+			keep = slice(-2, None) if ld.kind == 'real' else slice(None)
+			inv_cases.append(({'kind': ld.kind, 'entries': len(db), 'name': ld.name}, tbl_ops + inv_ops[keep], ['ok'] * len(tbl_ops) + inv_real[keep]))
+		n_tables += 1
 		# correspondence: order
 		order_mods: list[str | None] = [*(own if ld.kind != 'real' else own[-3:])]
 		if ld.kind != 'real' or ld.name == REAL_MODULES[0]:
@@ -1576,12 +1685,12 @@ def real_pass(ctx: Ctx) -> tuple[list[Stream], SearchResult]:
 		ord_cases.append(({'kind': ld.kind, 'entries': len(db), 'name': ld.name}, ops, real))
 	res.distinct = len(seen)
 	res.histogram = {**dict(hist), **{f'load:{k}': v for k, v in stats.items()}, **{f'invariants:{k}': v for k, v in inv_hist.items()}}
-	s3 = Stream('invariants-real')
-	s3.cases = sum(inv_hist.values())
-	s3.distinct = len(inv_hist)
-	s3.histogram = dict(inv_hist)
-	s3.disagreements = [{'case': n, 'real': 'order law fails', 'model': 'Loaded holds, so C14.order forbids it'} for n in inv_broken]
-	s3.note = 'hypotheses of C14.rt (SymOK) and C14.order (Loaded: closed, class keys, acyclic class entries, via) evaluated on each real table; a Loaded table whose export violates the order law would contradict the theorem (model ≠ code)'
+	s3 = common.correspond('invariants-real', inv_cases, FAMILY, classify=lambda d: d['kind'])
+	s3.cases = max(s3.cases, sum(inv_hist.values()))
+	s3.histogram = {**s3.histogram, **dict(inv_hist)}
+	s3.disagreements += [{'case': n, 'real': 'order law fails', 'model': 'Loaded holds, so C14.order forbids it'} for n in inv_broken]
+	s3.note = 'the whole loaded table is sent to the driver and `Loaded` / `SymOK` are evaluated by their Lean definitions (compiled), compared with the harness evaluation; '
+	s3.note += 'hypotheses of C14.rt (SymOK) and C14.order (Loaded: closed, class keys, acyclic class entries, via) evaluated on each real table; a Loaded table whose export violates the order law would contradict the theorem (model ≠ code)'
 	res.note = ('programs tranp cannot type (load or attribute resolution raises) are outside the domain and counted under load:*:unsupported; '
 		'empty modules (no symbol) are not asked to be `completed`: import_json marks a module only when it imports one of its keys (db.py:176-180)')
 	s1 = common.correspond('serialize-real', ser_cases, FAMILY, classify=lambda d: f"{d['kind']}:depth={min(d['depth'], 6)}{'+' if d['depth'] >= 6 else ''}:width{'>=10' if d['width'] >= 10 else '<10'}")
@@ -1607,6 +1716,11 @@ STATEMENTS = {
 	'C14.order_statement (def)': 'for every Loaded table (references are keys, in-module type keys are class symbols, class symbols do not refer to themselves through their attributes, via is another module\'s key or an own type key) and non-empty module: no exported row refers to a key of the module that is not exported earlier',
 	'C14.order': 'order_statement is a theorem for _order_keys_recursive after fix 95feeba (fuel = number of table keys + 1 is shown sufficient under the rank hypothesis)',
 	'C14.rt_loaded': 'SymOK + Loaded alone give: import succeeds, restores every key of M, completes M, and a second import changes nothing',
+	'C14.dsn_rt': 'ModuleDSN.parsed(ModuleDSN.full_joined(module, path)) = (module, path) and the module of the key is that module, for a non-empty module path when neither part contains # (guard checked on every real node by the search)',
+	'C14.import_attrs_counterexample': 'a serialize that writes no attributes for import entries restores an imported G[int] variable as G[T] (regression of a seeded mutation; the positive example beside it is an instance of rt)',
+	'C14.import_pop_counterexample': 'an import that consumes the attribute paths of its input leaves rows that import to other entries (regression of a seeded mutation; import_idem is the positive statement)',
+	'C14.shipped_invariants': 'for every module of the GENERATED library table (translate/gen_symbol_tables.py, re-generated from the real SymbolDB on every run): Loaded and SymOK hold — decided by the kernel',
+	'C14.shipped_rt': 'for those shipped library modules, without hypotheses: whatever to_json exports is imported without error, restores every entry, completes the module, and a second import changes nothing',
 	'C14.order_fuel': 'fuel sufficiency for EVERY table (also self-/mutually-referring class entries): any fuel ≥ number of keys + 1 gives the same walk — resolving is duplicate-free and inside the keys (pigeonhole)',
 	'C14.importable_acyclic': 'rows importable in the listed order carry a rank that decreases along every reference between them',
 	'C14.cyclic_unimportable': 'two rows that refer to each other cannot be imported in any order: the acyclicity hypothesis of C14.order is necessary',
@@ -1622,23 +1736,30 @@ STATEMENTS = {
 
 
 def run(ctx: Ctx) -> int:
+	translate_ok, translate_msg = True, ''
+	try:
+		from translate import gen_symbol_tables
+		ctx.generated_tables.extend(gen_symbol_tables.generate())
+	except Exception as e:  # noqa: BLE001
+		translate_ok, translate_msg = False, f'translator gen_symbol_tables: {type(e).__name__}: {exc_text(e)}'
 	proof = common.prove(ctx, PROP, leanchecker=ctx.thorough)
 	with ctx.timed('correspondence'):
-		streams = [stream_expand_stub(ctx), stream_identity_stub(ctx), stream_rebuild_stub(ctx), stream_order_stub(ctx), stream_table_stub(ctx)]
+		streams = [stream_expand_stub(ctx), stream_identity_stub(ctx), stream_dsn(ctx), stream_rebuild_stub(ctx), stream_order_stub(ctx), stream_table_stub(ctx)]
 	with ctx.timed('real_pass(correspondence+search)'):
 		real_streams, law = real_pass(ctx)
 	streams += real_streams
 	with ctx.timed('search_stub'):
 		searches = [law, search_stub_laws(ctx)]
 	return common.finish(ctx, proof, streams, searches,
+		translate_ok=translate_ok, translate_msg=translate_msg,
 		statements=STATEMENTS,
 		partial={
 			'proved': 'attribute flattening / rebuilding round trip for every forest; grouping fact; import idempotence; completed; table round trip under SymOK; the export-order law for every Loaded table (repaired algorithm)',
-			'correspondence_only': 'loaded tables satisfy SymOK and Loaded (evaluated on every real table, stream invariants-real); non-prefix-closed dicts against entries with attributes (walk into a shared entry) stay outside the model',
+			'correspondence_only': 'loaded tables other than the generated library sub-table satisfy SymOK and Loaded (evaluated on every real table by a harness paraphrase and, for a sample, by the Lean definitions themselves in the compiled driver: stream invariants-real); non-prefix-closed dicts against entries with attributes (walk into a shared entry) stay outside the model',
 		},
 		assumptions=[
 			"index path components are what str(index) produces (ASCII digits, no sign, no leading zero); other spellings accepted by int() are never generated",
-			'node DSNs are opaque: ModuleDSN.parsed/full_joined round-trip on module#path strings with a single #',
+			'node module paths are non-empty and module path / full path contain no # (the guard of C14.dsn_rt; checked on every real node by the search, finding key dsn:not-round-trip)',
 			'entrypoints return the same node for the same DSN (known/isClassDef/isDecl/fullyname are functions of the DSN)',
 		],
 		trusted=['the observable attribute forest of a reflection is read through .types.fullyname and .attrs by a harness walk written independently of seqs.expand'])
